@@ -4,7 +4,7 @@
    The option format and the path separator are those of the source (Gen/Generated.v). *)
 From Coq Require Import List NArith Bool.
 From Conductor Require Import Lib.Str Gen.Generated Model.Ident Model.Env Model.Loader Model.Planner
-  Model.RunCase Proofs.EnvProofs Proofs.PlannerInv Proofs.PlannerExact Proofs.PlannerOrder Proofs.Compose.
+  Model.RunCase Proofs.EnvProofs Proofs.PlannerInv Proofs.PlannerExact Proofs.PlannerOrder Proofs.Compose Proofs.SpawnEnv Proofs.GenTieEnv.
 Import ListNotations.
 Local Open Scope N_scope.
 
@@ -48,6 +48,47 @@ Theorem C07_cond_out : forall root i v,
   cond_out root i v = root ++ SLASH :: cfg_OUTPUT_DIR ++ flat_map (fun c => SLASH :: c) (ipath i) ++ SLASH :: task_output_dir i v.
 Proof. exact cond_out_shape. Qed.
 Print Assumptions C07_cond_out.
+
+(* The environment of the task process, as start_execution builds it (the definitions are regenerated from the sources on
+   every run: Gen.Generated gen_env_overrides / gen_env_slot_some / gen_env_slot_none), for EVERY environment Conductor itself
+   inherited: COND_OUT, COND_DEPS and COND_NAME carry the output directory, the joined dependency directories and the task's
+   name -- also when Conductor's own environment already defines them --, COND_SLOT is the slot number in decimal when the task
+   has a slot and is UNSET otherwise (also when inherited), and every other variable is passed on unchanged. *)
+Theorem C07_environment_contract : forall inherited root i v deps slot,
+  let e := spawn_env inherited (cond_out root i v) deps (cond_name i) slot in
+  env_get cfg_OUTPUT_ENV_VARIABLE_NAME e = Some (cond_out root i v) /\
+  env_get cfg_DEPS_ENV_VARIABLE_NAME e = Some (cond_deps deps) /\
+  env_get cfg_TASK_NAME_ENV_VARIABLE_NAME e = Some (iname i) /\
+  env_get cfg_SLOT_ENV_VARIABLE_NAME e = option_map dec slot /\
+  (forall k, is_cond_var k = false -> env_get k e = env_get k inherited).
+Proof. intros inherited root i v deps slot. exact (spawn_env_contract gen_env_shape inherited (cond_out root i v) deps (cond_name i) slot). Qed.
+Print Assumptions C07_environment_contract.
+
+(* ... so what the support library reads back inside the task is what was declared: get_output_path() is COND_OUT and
+   get_deps_paths() the listed directories in order (colon-free, non-empty paths: see C07_lib_roundtrip_colon_refuted) *)
+Theorem C07_library_reads_the_environment : forall inherited root i v deps slot,
+  Forall (fun p => p <> [] /\ ~ In COLON p) deps ->
+  let e := spawn_env inherited (cond_out root i v) deps (cond_name i) slot in
+  option_map lib_get_output_path (env_get cfg_OUTPUT_ENV_VARIABLE_NAME e) = Some (cond_out root i v) /\
+  option_map lib_get_deps_paths (env_get cfg_DEPS_ENV_VARIABLE_NAME e) = Some deps.
+Proof.
+  intros inherited root i v deps slot Hd e.
+  destruct (spawn_env_contract gen_env_shape inherited (cond_out root i v) deps (cond_name i) slot) as (Ho & Hdp & _).
+  fold e in Ho, Hdp. rewrite Ho, Hdp. cbn [option_map]. split; [reflexivity|]. f_equal. exact (lib_roundtrip tie_sep deps Hd).
+Qed.
+Print Assumptions C07_library_reads_the_environment.
+
+(* the process: bash (shell=True with executable /bin/bash) runs the command line of C07_cmdline in the directory of the
+   task's COND file, in a session of its own (read off the Popen call of the sources on every run) *)
+Theorem C07_started_by_bash_in_the_cond_directory : forall run args opts root i sp,
+  spawn_of run args opts root i = Some sp ->
+  sp_shell sp = true /\ sp_executable sp = [47; 98; 105; 110; 47; 98; 97; 115; 104] /\ sp_new_session sp = true /\
+  sp_cwd sp = root ++ flat_map (fun c => SLASH :: c) (ipath i) /\ cmdline run args opts = Some (sp_command sp).
+Proof.
+  intros run args opts root i sp H. destruct gen_popen_shape as (E1 & E2 & E3 & E4 & E5). unfold spawn_of in H. rewrite E3, E5 in H. cbn [andb] in H.
+  destruct (cmdline run args opts) as [c|]; [|discriminate]. inversion H; subst sp. cbn. rewrite E1, E2, E4. repeat split; reflexivity.
+Qed.
+Print Assumptions C07_started_by_bash_in_the_cond_directory.
 
 (* one new version per task and invocation (create_new_version is called at most once per task),
    so every dependent that is handed the version written in this invocation is handed the same one *)
